@@ -152,7 +152,17 @@ Advance(d) ==
   /\ ev' = [e |-> "advance", d |-> d, t |-> now + d] @@ NoInner
   /\ UNCHANGED <<cfg, st, deadline, gid, gout, infl, ngate, lis>>
 
-PollAny(c) == PollAdmit(c) \/ PollEnqueue(c) \/ PollReject(c) \/ PollDone(c) \/ PollStutter(c)
+\* Runs with a wrapped service whose poll_ready fails now and then (cfg.rdy > 0): a bulkhead that polls readiness itself
+\* (say, again right before the inner call) may meet such a failure and pass it on as the wrapped service's error (kind
+\* "inner3"); the caller is gone without an inner call, whatever slot it held is free again. The pinned code never
+\* does this; the action exists so that an implementation that does is not reported for it.
+PollReadyErr(c) ==
+  /\ "rdy" \in DOMAIN cfg /\ cfg.rdy > 0
+  /\ st[c] \in {"created", "waiting", "granted"}
+  /\ \E s \in GrantOne([st EXCEPT ![c] = "rejected"]) : st' = s
+  /\ ev' = [res |-> "err", kind |-> "inner3"] @@ Ev("poll", c)
+  /\ UNCHANGED <<cfg, now, deadline, gid, gout, infl, ngate, lis>>
+PollAny(c) == PollAdmit(c) \/ PollEnqueue(c) \/ PollReject(c) \/ PollDone(c) \/ PollStutter(c) \/ PollReadyErr(c)
 
 \* ---- property predicates (guards on the post-state in trace mode, invariants in MC mode)
 InFlightLeMax == Cardinality(infl) <= cfg.max                            \* C01
